@@ -26,7 +26,7 @@ class MapFuture(_Future):
         with self._me_lock:
             self._delegate = delegate
 
-        if delegate:
+        if delegate is not None:
             self._delegate.add_done_callback(self._delegate_resolved)
 
     def _delegate_failed(self, delegate):
@@ -104,13 +104,13 @@ class MapFuture(_Future):
         with self._me_lock:
             if self.done():
                 return False
-            return self._delegate and (
+            return self._delegate is not None and (
                 self._delegate.running() or self._delegate.done()
             )
 
     def _me_cancel(self):
         with self._me_lock:
-            if self._delegate:
+            if self._delegate is not None:
                 return self._delegate.cancel()
         return False
 
